@@ -52,11 +52,20 @@ SigC08(e) ==
   IF e.exc \in {"OverflowError", "ValueError"} /\ FloatRoundKnown(e.s)
   THEN "validate.float_precision_round_raises" ELSE ""
 
+RECURSIVE HasHugeInt(_)
+\* an int too large for CPython to print (int -> str conversion limit, 4300 digits by default)
+HasHugeInt(v) ==
+  CASE v.k = "int" -> DAbs(v.n) = 3000
+    [] v.k = "list" -> \E i \in DOMAIN v.items : HasHugeInt(v.items[i])
+    [] v.k = "dict" -> \E i \in DOMAIN v.pairs : HasHugeInt(v.pairs[i].key) \/ HasHugeInt(v.pairs[i].val)
+    [] OTHER -> FALSE
+SigRender(e) == IF HasHugeInt(e.v) THEN "format.int_beyond_str_conversion_limit" ELSE ""
+
 VerdictC08(e) ==
   IF e.exc # "" THEN "FAIL:validate_raised:" \o SigC08(e)
-  ELSE IF \E i \in DOMAIN e.facts : ~e.facts[i].nonempty THEN "FAIL:empty_message:"
+  ELSE IF \E i \in DOMAIN e.facts : ~e.facts[i].nonempty THEN "FAIL:error_does_not_render:" \o SigRender(e)
   ELSE IF e.nerrs = 0 /\ e.vof # "true" THEN "FAIL:validate_or_fail_without_errors:"
-  ELSE IF e.nerrs # 0 /\ e.vof # "exc" THEN "FAIL:validate_or_fail_with_errors:"
+  ELSE IF e.nerrs # 0 /\ e.vof # "exc" THEN "FAIL:validate_or_fail_with_errors:" \o SigRender(e)
   ELSE IF e.nerrs # 0 /\ e.vof_lines # e.nerrs THEN "FAIL:validate_or_fail_line_count:"
   ELSE IF e.fmt_lines # (IF e.nerrs = 0 THEN 0 ELSE e.nerrs + 1) THEN "FAIL:format_result_line_count:"
   ELSE "OK"
